@@ -52,6 +52,7 @@ CHECKS = {
             rapid("url", "^TestC19URL$", 2500, 1),
             rapid("raw", "^TestC19Raw$", 2500, 1),
             rapid("relative", "^TestC19Relative$", 1000, 1),
+            rapid("decoy", "^TestC19Decoy$", 1500, 1),
             rapid("stdlog", "^TestC19StdLog$", 8000, 1),
             rapid("registry", "^TestC19Registry$", 3000, 1),
         ],
@@ -61,6 +62,7 @@ CHECKS = {
             rapid("url", "^TestC19URL$", 40000, 4, timeout=3000),
             rapid("raw", "^TestC19Raw$", 40000, 2, timeout=3000),
             rapid("relative", "^TestC19Relative$", 20000, 1, timeout=3000),
+            rapid("decoy", "^TestC19Decoy$", 20000, 2, timeout=3000),
             rapid("stdlog", "^TestC19StdLog$", 200000, 2, timeout=3000),
             rapid("registry", "^TestC19Registry$", 40000, 2, timeout=3000),
             fuzz("fuzz", "^FuzzC19$", "60s"),
